@@ -79,7 +79,7 @@ V_infer(e) ==
            ELSE IF aero = "fail" THEN (IF okWith(FALSE) THEN "ok" ELSE "infer_candidate_set")
            ELSE IF okWith(TRUE) \/ okWith(FALSE) THEN "ok" ELSE "infer_candidate_set"
 
-(* ---- is50or60 with alt_ref = 0 (sea level: TAS = Mach * a0, CAS = IAS) ---- *)
+(* ---- is50or60: the Mach/IAS pre-check at the reference altitude e.alt (ft); nearest-interpretation decisions at sea level ---- *)
 \* e.spd = <<num, den>> reference speed (kt), e.trk = <<num, den>> reference track (deg)
 AngSep512(a, b) == LET d == PosMod(a - b, 360 * 512) IN Min(d, 360 * 512 - d)     \* angles as num/512 degrees
 V_is50or60(e) ==
@@ -90,11 +90,12 @@ V_is50or60(e) ==
   IF ~Is50(f) \/ ~Is60Format(f) \/ aero = "fail" THEN (IF IsNone(r) THEN "ok" ELSE "is50or60_none_unless_both")
   ELSE IF aero = "open" THEN (IF IsNone(r) \/ any THEN "ok" ELSE "is50or60_shape")
   ELSE IF ~any THEN "is50or60_label"
-  ELSE LET rule0 == IF Has(Mach60(f)) /\ Has(Ias60(f)) THEN MachIasRule(MBF(f, 25, 34), MBF(f, 14, 23), 0) ELSE "pass" IN
+  ELSE LET rule0 == IF Has(Mach60(f)) /\ Has(Ias60(f)) THEN MachIasRule(MBF(f, 25, 34), MBF(f, 14, 23), e.alt) ELSE "pass" IN
        IF rule0 = "fail" THEN (IF IsLabel(r, "BDS50") THEN "ok" ELSE "is50or60_mach_ias_at_reference_altitude")
        ELSE IF rule0 = "open" THEN "ok"
        ELSE IF ~Has(Hdg60(f)) \/ (~Has(Mach60(f)) /\ ~Has(Ias60(f))) \/ ~Has(Trk50(f)) \/ ~Has(Gs50(f))
             THEN (IF IsLabel(r, "BDS50,BDS60") THEN "ok" ELSE "is50or60_undecidable_must_name_both")
+       ELSE IF e.alt # 0 THEN "ok"          \* nearest-interpretation decisions are modelled at sea level only
        ELSE LET sep == AngSep512(Trk50(f)[1], Hdg60(f)[1])
                 ref50 == e.spd[2] = 1 /\ e.spd[1] = Gs50(f)[1] /\ e.trk[2] = 512 /\ e.trk[1] = Trk50(f)[1]
                 ref60 == e.trk[2] = 512 /\ e.trk[1] = Hdg60(f)[1] /\ Has(Mach60(f)) /\ e.spd[2] = 1
